@@ -99,18 +99,24 @@ def bindBody (base : Cfg) (v : CView) : CView :=
   if !v.hasResp || !wantsBind base v.r.status then v
   else
     let ((d, e), r') := v.r.toBytes
-    if e != .ok then { v with r := r' }
-    else if successState v.r.status then { v with r := r', result := some d }
-    else { v with r := r', error := some d }
+    match e with
+    | .ok => if successState v.r.status then { v with r := r', result := some d }
+             else { v with r := r', error := some d }
+    | _ => { v with r := r' }
 
 /-- `parseResponseBody` returns an error: the body could not be read (or `resp.Err` was set). -/
 def bindFails (base : Cfg) (v : CView) : Bool :=
-  v.hasResp && wantsBind base v.r.status && v.r.toBytes.1.2 != .ok
+  v.hasResp && wantsBind base v.r.status && decide (v.r.toBytes.1.2 ≠ .ok)
 
 /-- fixes/C02-2 `digestChallengePending`: a 401 that a configured digest middleware is going
 to answer (the middleware's own guard) is not the response to save. -/
 def awaitsDigest (cfg : CCfg) (c : CR) : Bool :=
-  cfg.digest != .off && c.v.r.err.isNone && c.v.hasResp && c.v.r.status == 401 && !c.resent
+  decide (cfg.digest ≠ .off) && c.v.r.err.isNone && c.v.hasResp && c.v.r.status == 401 && !c.resent
+
+/-- What a writer holds so far (`none`: never written to). -/
+def accBytes : Option Bytes → Bytes
+  | some a => a
+  | none => []
 
 /-- `handleDownload` within a call: `acc` is what the output holds so far. A file is created
 anew (truncated) by every download; a writer just receives more bytes. `skip`: the response
@@ -119,11 +125,10 @@ def download (base : Cfg) (file skip : Bool) (v : CView) (acc : Option Bytes) : 
   if !v.hasResp || !base.save || skip then (v, acc)
   else
     let r' := handleDownload base v.r
-    match r'.out with
-    | none => ({ v with r := r' }, acc)          -- unreachable: `save` is on
-    | some data =>
-      ({ v with r := r' },
-       some (if file then data else (match acc with | some a => a | none => []) ++ data))
+    ({ v with r := r' },
+     match r'.out with
+     | none => acc          -- unreachable: `save` is on
+     | some data => some (if file then data else accBytes acc ++ data))
 
 /-- `Client.roundTrip` from `httpClient.Do` to (and including) the built-in response
 middlewares `parseResponseBody`, `handleDownload`. -/
